@@ -22,8 +22,8 @@ package route
 // answered within the watchdog and that reproduces alone 2/2. Any answer, 4xx/5xx
 // included, is fine. Signature: C28/requests/<CrashSite>/<message>.
 //
-// Unexported identifiers of package route used: none (the E3 file is listed only for its
-// value tree / msgpack encoder / small-window compressors / raw gRPC codec).
+// Unexported identifiers of package route used: none. The E3 file is listed only for its
+// value tree / msgpack encoder / small-window compressors / raw gRPC codec.
 
 import (
 	"bytes"
@@ -265,6 +265,7 @@ func (n *c28Node) startSink() error {
 					cnt = int(binary.BigEndian.Uint32(body[1:]))
 				}
 			}
+			cnt = min(cnt, 100_000) // proxied requests carry arbitrary bodies here
 			n.sinkEvents.Add(int64(cnt))
 			w.Header().Set("Content-Type", "application/json")
 			w.Write([]byte("[" + strings.TrimSuffix(strings.Repeat(`{"status":202},`, cnt), ",") + "]"))
@@ -431,25 +432,14 @@ func (n *c28Node) stop() {
 	if n.grpcConn != nil {
 		n.grpcConn.Close()
 	}
-	if n.routers != nil {
-		// Router.Stop waits for idle connections; bound it
+	if n.graph != nil {
+		// stops routers (Router.Stop), collector, transmissions ... in reverse dependency order, as main.go does
 		d := make(chan struct{})
-		go func() {
-			defer close(d)
-			if n.routers.Incoming.server != nil {
-				_ = n.routers.Incoming.Stop()
-			}
-			if n.routers.Peer.server != nil {
-				_ = n.routers.Peer.Stop()
-			}
-		}()
+		go func() { defer close(d); _ = startstop.Stop(n.graph.Objects(), nil) }()
 		select {
 		case <-d:
-		case <-time.After(15 * time.Second):
+		case <-time.After(30 * time.Second):
 		}
-	}
-	if n.graph != nil {
-		_ = startstop.Stop(n.graph.Objects(), nil)
 	}
 }
 
@@ -564,7 +554,8 @@ func TestVerif_C28RequestsChild(t *testing.T) {
 		if strings.HasPrefix(note, "HANG") {
 			buf := make([]byte, 1<<20)
 			buf = buf[:runtime.Stack(buf, true)]
-			fmt.Fprintf(os.Stderr, "VERIF-HANG request %d\n%s\n", i, buf)
+			// "[running]" would make verifkit.CrashSite take this dump for a crash dump
+			fmt.Fprintf(os.Stderr, "VERIF-HANG request %d\n%s\n", i, strings.ReplaceAll(string(buf), "[running]", "[dumping]"))
 		}
 		if drainEach {
 			if !node.waitIdle(5 * time.Second) {
@@ -641,7 +632,7 @@ Samplers:
               Value: "^[0-9a-f]+$"
             - Field: http.status
               Operator: in
-              Value: [200, 201, "x"]
+              Value: [200, 201, 404]
               Datatype: int
         - Name: bool and root
           SampleRate: 1
@@ -819,7 +810,7 @@ func c28Val(rng *verifkit.Rand, depth int) E3Val {
 	case 13:
 		return verifkit.Pick(rng, VTs32(1700000000), VTs64(1700000000, 999999999), VTs96(-1, 5), VTs96(math.MaxInt64, 999999999), VTs64(1<<34-1, 1<<30-1), VTs96(1, 2000000000))
 	case 14:
-		return VExt(int8(verifkit.Pick(rng, 0, 1, 5, -2, -128, 127, 99)), []byte(rng.Hex(verifkit.Pick(rng, 0, 1, 2, 4, 8, 16, 3, 300)/2*2))[:verifkit.Pick(rng, 0, 1, 2, 3)])
+		return VExt(int8(verifkit.Pick(rng, 0, 1, 5, -2, -128, 127, 99)), c28Random(rng, verifkit.Pick(rng, 0, 1, 2, 3, 4, 8, 16, 300)))
 	case 15:
 		return VExt(-1, []byte(rng.Hex(32))[:verifkit.Pick(rng, 0, 1, 3, 5, 7, 9, 11, 13)]) // timestamp ext of illegal length
 	case 16:
@@ -1086,4 +1077,1128 @@ func c28Random(rng *verifkit.Rand, n int) []byte {
 		b[i] = byte(rng.Intn(256))
 	}
 	return b
+}
+
+// -------------------------------------------------------------------------------------
+// Parent: request builders
+// -------------------------------------------------------------------------------------
+
+type c28Gen struct {
+	rng   *verifkit.Rand
+	scale int // 16 quick, 1 thorough
+	force int // extreme slots: 1 = msgpack / protobuf, 2 = JSON; 0 = PRNG's choice
+	// benign: the request wrapper (method, path, key, headers, transport) is well-formed so
+	// that the body is what reaches the decoder (used for the maximal-nesting inputs)
+	benign bool
+}
+
+// nestPrefix returns depth copies of unit (deep nesting with a tiny body).
+func c28Nest(unit []byte, depth int) []byte { return bytes.Repeat(unit, depth) }
+
+// body of a libhoney request: returns bytes, content type and class label
+func (g *c28Gen) libhoneyBody(batch bool, extreme bool) (body []byte, ct string, class string) {
+	rng := g.rng
+	msgpack := rng.Bool()
+	if g.force != 0 {
+		msgpack = g.force == 1
+	}
+	ct = verifkit.Pick(rng, "application/json", "application/json", "application/json; charset=utf-8", "text/plain", "")
+	if msgpack {
+		ct = verifkit.Pick(rng, "application/msgpack", "application/x-msgpack")
+	}
+	enc := func(v E3Val) []byte {
+		if msgpack {
+			return e3AppendMsgpack(nil, v)
+		}
+		return c28JSON(nil, v)
+	}
+	fam := "json"
+	if msgpack {
+		fam = "msgpack"
+	}
+	if extreme {
+		// nesting as deep as the 5 MB body limit allows (divided by scale)
+		depth := 5_000_000 / g.scale
+		var pre, post []byte
+		how := rng.Intn(3)
+		if msgpack {
+			switch how {
+			case 0:
+				pre, post = c28Nest([]byte{0x91}, depth), []byte{0xc0}
+			case 1:
+				pre, post = c28Nest([]byte{0x81, 0xa1, 'k'}, depth/3), []byte{0xc0}
+			default:
+				pre, post = c28Nest([]byte{0x92, 0x01}, depth/2), []byte{0xc0}
+			}
+			head := []byte{0x81, 0xa1, 'a'}
+			if batch {
+				head = append([]byte{0x91, 0x81, 0xa4, 'd', 'a', 't', 'a'}, head...)
+			}
+			return append(append(head, pre...), post...), ct, fam + "/extreme-depth-" + strconv.Itoa(how)
+		}
+		switch how {
+		case 0:
+			pre, post = c28Nest([]byte{'['}, depth/2), c28Nest([]byte{']'}, depth/2)
+		case 1:
+			pre, post = c28Nest([]byte(`{"k":`), depth/6), append([]byte("1"), c28Nest([]byte{'}'}, depth/6)...)
+		default:
+			pre, post = c28Nest([]byte{'['}, depth), nil // never closed
+		}
+		head, tail := []byte(`{"a":`), []byte("}")
+		if batch {
+			head, tail = []byte(`[{"data":{"a":`), []byte("}}]")
+		}
+		return append(append(append(head, pre...), post...), tail...), ct, fam + "/extreme-depth-" + strconv.Itoa(how)
+	}
+	weird := verifkit.Pick(rng, 0.0, 0.1, 0.3, 0.6)
+	var tree E3Val
+	if !batch {
+		tree = c28EventTree(rng, weird)
+		class = fam + "/event"
+	} else {
+		n := verifkit.Pick(rng, 0, 1, 1, 2, 3, 5)
+		if rng.Chance(0.02) {
+			n = 130 // more than MaxBatchSize
+		}
+		tree = E3Val{Kind: KArr}
+		for i := 0; i < n; i++ {
+			var kvs []E3KV
+			if rng.Chance(0.7) {
+				var tv E3Val
+				switch {
+				case !rng.Chance(weird):
+					if msgpack {
+						tv = VTs64(1700000000+int64(rng.Intn(1000)), int64(rng.Intn(1e9)))
+					} else {
+						tv = VStr(time.Unix(1700000000, int64(rng.Intn(1e9))).UTC().Format(time.RFC3339Nano))
+					}
+				default:
+					tv = verifkit.Pick(rng, c28Val(rng, 1), VStr(g.eventTime()), VTs96(math.MinInt64, 0), VTs96(1<<62, 999999999), VInt(1700000000), VF64(1.7e9), VMap(KV("t", VInt(1))))
+				}
+				kvs = append(kvs, KV("time", tv))
+			}
+			if rng.Chance(0.6) {
+				rv := VInt(int64(verifkit.Pick(rng, 1, 2, 10)))
+				if rng.Chance(weird) {
+					rv = verifkit.Pick(rng, VInt(0), VInt(-1), VInt(math.MinInt64), VUintW(math.MaxUint64, 64), VF64(1.5), VF64(math.NaN()), VStr("10"), VNil(), VBool(true), VArr(VInt(1)), VIntW(5, 64), VUintW(7, 8))
+				}
+				kvs = append(kvs, KV("samplerate", rv))
+			}
+			if rng.Chance(0.9) {
+				dv := c28EventTree(rng, weird)
+				if rng.Chance(weird / 2) {
+					dv = verifkit.Pick(rng, VNil(), VArr(), VStr("data"), VInt(1), VMap(), VBin([]byte{0x81, 0xa1, 'a', 1}))
+				}
+				kvs = append(kvs, KV("data", dv))
+			}
+			if rng.Chance(weird / 2) {
+				kvs = append(kvs, KV(verifkit.Pick(rng, "extra", "data", "time", "samplerate", ""), c28Val(rng, 2)))
+			}
+			verifkit.Shuffle(rng, kvs)
+			item := VMap(kvs...)
+			if rng.Chance(weird / 4) {
+				item = verifkit.Pick(rng, VNil(), VInt(1), VStr("x"), VArr(VMap()), VBool(false))
+			}
+			tree.Arr = append(tree.Arr, item)
+		}
+		if rng.Chance(weird / 4) {
+			tree = verifkit.Pick(rng, VMap(KV("data", VMap(KV("a", VInt(1))))), VNil(), VStr("[]"), VInt(0))
+		}
+		class = fam + "/batch" + strconv.Itoa(len(tree.Arr))
+	}
+	body = enc(tree)
+	switch k := rng.Intn(20); {
+	case k < 9: // as generated (valid or valid-but-weird)
+		class += "/tree"
+	case k < 15:
+		var l string
+		body, l = c28Mutate(rng, body, msgpack)
+		class += "/mut" + l
+	case k == 15:
+		body, class = c28Random(rng, rng.Range(0, 64)), class+"/random"
+	case k == 16:
+		if msgpack {
+			h := c28HugeHeaders[rng.Intn(len(c28HugeHeaders))]
+			switch rng.Intn(3) {
+			case 0:
+				body = append([]byte(nil), h...)
+			case 1:
+				body = append([]byte{0x81, 0xa1, 'a'}, h...)
+			default:
+				body = append(append([]byte{0x91, 0x81, 0xa4, 'd', 'a', 't', 'a', 0x81, 0xa1, 'a'}, h...), 'x')
+			}
+			class += "/hugelen-only"
+		} else {
+			body = []byte(verifkit.Pick(rng, ``, `null`, `[]`, `{}`, `[{}]`, `[null]`, `[{"data":null}]`, `{"a":1e400}`, `{"a":-}`, "\xef\xbb\xbf{\"a\":1}", `{"a":"\ud800"}`, `[{"data":{"a":1},"time":12345,"samplerate":"x"}]`, `{"a":1}{"b":2}`, `[{"data":{"a":1}},]`))
+			class += "/literal"
+		}
+	case k == 17: // moderate nesting
+		d := verifkit.Pick(rng, 50, 299, 301, 1000, 9999, 10001, 100001)
+		if msgpack {
+			body = append(append([]byte{0x81, 0xa1, 'a'}, c28Nest([]byte{0x91}, d)...), 0xc0)
+			if batch {
+				body = append([]byte{0x91, 0x81, 0xa4, 'd', 'a', 't', 'a'}, body...)
+			}
+		} else {
+			body = append(append([]byte(`{"a":`), c28Nest([]byte{'['}, d)...), append(c28Nest([]byte{']'}, d), '}')...)
+			if batch {
+				body = append(append([]byte(`[{"data":`), body...), "}]"...)
+			}
+		}
+		class += "/nest"
+	case k == 18: // big but legal
+		body = enc(VMap(KV("trace.trace_id", VStr("trace-1")), KV("a", VStr(strings.Repeat("z", verifkit.Pick(rng, 100_000, 1_000_000, 4_999_000, 5_100_000))))))
+		if batch {
+			if msgpack {
+				body = append([]byte{0x91, 0x81, 0xa4, 'd', 'a', 't', 'a'}, body...)
+			} else {
+				body = append(append([]byte(`[{"data":`), body...), "}]"...)
+			}
+		}
+		class += "/big"
+	default: // the other encoding under this content type
+		if msgpack {
+			body = c28JSON(nil, tree)
+		} else {
+			body = e3AppendMsgpack(nil, tree)
+		}
+		class += "/wrong-ct"
+	}
+	return body, ct, class
+}
+
+func (g *c28Gen) eventTime() string {
+	rng := g.rng
+	switch rng.Intn(10) {
+	case 0:
+		return time.Unix(1700000000, 1).UTC().Format(time.RFC3339Nano)
+	case 1:
+		return "1700000000"
+	case 2:
+		return strings.Repeat("9", rng.Range(1, 30))
+	case 3:
+		return "1700000000." + strings.Repeat("1", rng.Range(1, 400))
+	case 4:
+		return verifkit.Pick(rng, "0x7fffffffffffffff", "-1700000000000", "1_700_000_000_000", "1e400", "NaN", "Inf", "-Inf", "+1700000000123", "0b1010101010101", "017000000000000")
+	case 5:
+		return verifkit.Pick(rng, "9999-12-31T23:59:60Z", "0000-01-01T00:00:00Z", "2024-02-30T00:00:00+99:99", "292277026596-12-04T15:30:07Z")
+	case 6:
+		return strings.Repeat("1", 11) + "e" + strings.Repeat("9", rng.Range(1, 5))
+	default:
+		return c28Str(rng)
+	}
+}
+
+// compress wraps body per the chosen encoding; returns bytes, header value ("" = none), label
+func (g *c28Gen) encode(body []byte) ([]byte, string, string) {
+	rng := g.rng
+	r := &E3Req{Body: body}
+	k := rng.Intn(12)
+	if g.benign {
+		k = verifkit.Pick(rng, 0, 2, 11)
+	}
+	switch k {
+	case 0, 1:
+		r.Gzip()
+		return r.Body, "gzip", "gzip"
+	case 2, 3:
+		r.Zstd()
+		return r.Body, "zstd", "zstd"
+	case 4:
+		return body, verifkit.Pick(rng, "gzip", "zstd"), "label-only"
+	case 5:
+		return body, verifkit.Pick(rng, "deflate", "br", "identity", "GZIP", "gzip, zstd", "x"), "odd-label"
+	case 6:
+		if rng.Bool() {
+			r.Gzip()
+		} else {
+			r.Zstd()
+		}
+		b, l := c28Mutate(rng, r.Body, false)
+		return b, r.Header.Get("Content-Encoding"), "corrupt" + l
+	case 7:
+		r.Gzip()
+		r2 := &E3Req{Body: r.Body}
+		r2.Zstd()
+		return r2.Body, verifkit.Pick(rng, "zstd", "gzip"), "double"
+	default:
+		return body, "", "plain"
+	}
+}
+
+func (g *c28Gen) apiKey() (string, bool) {
+	rng := g.rng
+	if g.benign {
+		return c28KeyLegacy, true
+	}
+	switch rng.Intn(14) {
+	case 0:
+		return "", false
+	case 1:
+		return "", true
+	case 2:
+		return c28KeyEnv, true
+	case 3:
+		return c28KeyEnv2, true
+	case 4:
+		return c28KeyIngest, true
+	case 5:
+		return c28KeyLegacy2, true
+	case 6:
+		return verifkit.Pick(rng, "deny-me-please-0123456", strings.Repeat("k", 8000), "key with spaces", "k\tk", "é✓é✓é✓é✓", "hcxik_short", strings.Repeat("f", 31), strings.Repeat("F", 32), "hc?ic_"+strings.Repeat("a", 58)), true
+	default:
+		return c28KeyLegacy, true
+	}
+}
+
+func (g *c28Gen) datasetPath() string {
+	rng := g.rng
+	if g.benign {
+		return verifkit.Pick(rng, "dyn", "ema", "other")
+	}
+	switch rng.Intn(12) {
+	case 0:
+		return verifkit.Pick(rng, "", "%", "%zz", "%2", "a%2Fb", "a%00b", "..", ".", "%2e%2e", "a%20b", "a+b", "a?x=1", "a#f", "a;b", "%C3%A9", "%ff%fe", "a//b", "a/b/c", strings.Repeat("d", 5000), "a b")
+	default:
+		ds := c28Datasets[rng.Intn(len(c28Datasets))]
+		var b strings.Builder
+		for i := 0; i < len(ds); i++ {
+			c := ds[i]
+			if (c >= 'a' && c <= 'z') || (c >= '0' && c <= '9') {
+				b.WriteByte(c)
+			} else {
+				fmt.Fprintf(&b, "%%%02X", c)
+			}
+		}
+		return b.String()
+	}
+}
+
+type c28Hdr struct{ k, v string }
+
+// rawHTTP renders the request. declLen<0 = exact Content-Length.
+func c28RawHTTP(method, target, version string, hdrs []c28Hdr, body []byte, declLen int, chunked bool) []byte {
+	var b bytes.Buffer
+	fmt.Fprintf(&b, "%s %s %s\r\nHost: refinery.verif.invalid\r\nConnection: close\r\n", method, target, version)
+	for _, h := range hdrs {
+		fmt.Fprintf(&b, "%s: %s\r\n", h.k, h.v)
+	}
+	if chunked {
+		b.WriteString("Transfer-Encoding: chunked\r\n\r\n")
+		for len(body) > 0 {
+			n := len(body)
+			if n > 1000 {
+				n = 1000
+			}
+			fmt.Fprintf(&b, "%x\r\n", n)
+			b.Write(body[:n])
+			b.WriteString("\r\n")
+			body = body[n:]
+		}
+		b.WriteString("0\r\n\r\n")
+		return b.Bytes()
+	}
+	if declLen < 0 {
+		declLen = len(body)
+	}
+	if method != "GET" || len(body) > 0 || declLen > 0 {
+		fmt.Fprintf(&b, "Content-Length: %d\r\n", declLen)
+	}
+	b.WriteString("\r\n")
+	b.Write(body)
+	return b.Bytes()
+}
+
+// finishHTTP adds transport-level hostility common to all HTTP requests.
+func (g *c28Gen) finishHTTP(r *c28Req, method, target string, hdrs []c28Hdr, body []byte) {
+	rng := g.rng
+	version, declLen, chunked := "HTTP/1.1", -1, false
+	k := rng.Intn(40)
+	if g.benign {
+		k, method = 39, "POST"
+	}
+	switch k {
+	case 0:
+		version = "HTTP/1.0"
+	case 1:
+		declLen = len(body) + rng.Range(1, 100) // client dies mid-body
+		r.HalfClose = true
+		r.Class += "/short-body"
+	case 2:
+		if len(body) > 0 {
+			declLen = rng.Intn(len(body)) // trailing bytes after the declared body
+			r.Class += "/long-body"
+		}
+	case 3:
+		chunked = true
+	case 4:
+		hdrs = append(hdrs, c28Hdr{"X-Huge", strings.Repeat("h", verifkit.Pick(rng, 10_000, 1_100_000))})
+		r.Class += "/huge-header"
+	case 5:
+		hdrs = append(hdrs, hdrs...) // every header twice
+	case 6:
+		hdrs = append(hdrs, c28Hdr{"User-Agent", verifkit.Pick(rng, "", strings.Repeat("u", 9000), "libhoney-go/1.2.3", "é✓", "a\tb")})
+	case 7:
+		hdrs = append(hdrs, c28Hdr{"X-Forwarded-For", "1.2.3.4, 5.6.7.8"}, c28Hdr{"Expect", "100-continue"})
+	}
+	r.Proto = "http"
+	r.Raw = c28RawHTTP(method, target, version, hdrs, body, declLen, chunked)
+	r.Desc = fmt.Sprintf("%s %s listener=%s class=%s body=%dB", method, c28Clip(target, 120), r.Listener, r.Class, len(body))
+}
+
+func c28Clip(s string, n int) string {
+	if len(s) > n {
+		return s[:n] + "…"
+	}
+	return s
+}
+
+func (g *c28Gen) libhoney(batch, extreme bool) c28Req {
+	rng := g.rng
+	r := c28Req{Listener: verifkit.Pick(rng, "incoming", "incoming", "peer")}
+	body, ct, class := g.libhoneyBody(batch, extreme)
+	body, ce, encLabel := g.encode(body)
+	route := "/1/events/"
+	if batch {
+		route = "/1/batch/"
+	}
+	var hdrs []c28Hdr
+	if ct != "" {
+		hdrs = append(hdrs, c28Hdr{"Content-Type", ct})
+	}
+	if ce != "" {
+		hdrs = append(hdrs, c28Hdr{"Content-Encoding", ce})
+	}
+	if k, ok := g.apiKey(); ok {
+		hdrs = append(hdrs, c28Hdr{verifkit.Pick(rng, "X-Honeycomb-Team", "X-Honeycomb-Team", "X-Hny-Team", "x-honeycomb-team"), k})
+	}
+	if !batch {
+		if rng.Chance(0.5) {
+			hdrs = append(hdrs, c28Hdr{"X-Honeycomb-Samplerate", verifkit.Pick(rng, "1", "2", "0", "-1", "-9223372036854775808", "18446744073709551615", "99999999999999999999", "1.5", "1e3", "abc", "", " 5", "0x10")})
+		}
+		if rng.Chance(0.5) {
+			hdrs = append(hdrs, c28Hdr{"X-Honeycomb-Event-Time", g.eventTime()})
+		}
+	}
+	r.Class = strings.TrimSuffix(route, "/") + "/" + r.Listener + "/" + class + "/" + encLabel
+	g.finishHTTP(&r, verifkit.Pick(rng, "POST", "POST", "POST", "POST", "POST", "POST", "POST", "POST", "PUT", "GET"), route+g.datasetPath(), hdrs, body)
+	return r
+}
+
+// ---- OTLP ----
+
+func (g *c28Gen) anyValue(depth int) *common.AnyValue {
+	rng := g.rng
+	k := rng.Intn(12)
+	if depth <= 0 && k >= 8 {
+		k = rng.Intn(8)
+	}
+	switch k {
+	case 0:
+		return nil
+	case 1:
+		return &common.AnyValue{}
+	case 2:
+		return &common.AnyValue{Value: &common.AnyValue_BoolValue{BoolValue: rng.Bool()}}
+	case 3:
+		return &common.AnyValue{Value: &common.AnyValue_IntValue{IntValue: verifkit.Pick[int64](rng, 0, -1, 200, 500, math.MaxInt64, math.MinInt64)}}
+	case 4:
+		return &common.AnyValue{Value: &common.AnyValue_DoubleValue{DoubleValue: verifkit.Pick(rng, 0.5, math.NaN(), math.Inf(1), -1e308, 1e19)}}
+	case 5:
+		return &common.AnyValue{Value: &common.AnyValue_BytesValue{BytesValue: c28Random(rng, rng.Range(0, 20))}}
+	case 6, 7:
+		return &common.AnyValue{Value: &common.AnyValue_StringValue{StringValue: c28Str(rng)}}
+	case 8, 9:
+		arr := &common.ArrayValue{}
+		for i := rng.Range(0, 3); i > 0; i-- {
+			arr.Values = append(arr.Values, g.anyValue(depth-1))
+		}
+		return &common.AnyValue{Value: &common.AnyValue_ArrayValue{ArrayValue: arr}}
+	default:
+		kv := &common.KeyValueList{}
+		for i := rng.Range(0, 3); i > 0; i-- {
+			kv.Values = append(kv.Values, &common.KeyValue{Key: verifkit.Pick(rng, "x", "", "a.b", "x"), Value: g.anyValue(depth - 1)})
+		}
+		return &common.AnyValue{Value: &common.AnyValue_KvlistValue{KvlistValue: kv}}
+	}
+}
+
+var c28OTLPKeys = []string{"a", "b", "http.status", "nested", "sampleRate", "SampleRate", "service.name", "meta.signal_type", "meta.annotation_type",
+	"meta.refinery.probe", "trace.trace_id", "trace.parent_id", "exception.message", "exception.type", "exception.stacktrace", "", "duration_ms", "name", "meta.span_count"}
+
+func (g *c28Gen) attrs(weird float64) []*common.KeyValue {
+	rng := g.rng
+	var out []*common.KeyValue
+	for i := rng.Range(0, 5); i > 0; i-- {
+		k := c28OTLPKeys[rng.Intn(len(c28OTLPKeys))]
+		var v *common.AnyValue
+		switch {
+		case rng.Chance(weird):
+			v = g.anyValue(3)
+		case strings.EqualFold(k, "sampleRate"):
+			v = verifkit.Pick(rng,
+				&common.AnyValue{Value: &common.AnyValue_IntValue{IntValue: verifkit.Pick[int64](rng, 0, 1, 10, -5, math.MaxInt64, math.MinInt64, 1<<31, 1<<32)}},
+				&common.AnyValue{Value: &common.AnyValue_StringValue{StringValue: verifkit.Pick(rng, "10", "-1", "abc", "1e400", "99999999999999999999", "", "1.5")}},
+				&common.AnyValue{Value: &common.AnyValue_DoubleValue{DoubleValue: verifkit.Pick(rng, 1.5, math.NaN(), math.Inf(1), -1.0, 1e300)}})
+		default:
+			v = verifkit.Pick(rng,
+				&common.AnyValue{Value: &common.AnyValue_StringValue{StringValue: verifkit.Pick(rng, "x1", "dropme", "200")}},
+				&common.AnyValue{Value: &common.AnyValue_IntValue{IntValue: int64(verifkit.Pick(rng, 200, 404, 500))}},
+				&common.AnyValue{Value: &common.AnyValue_BoolValue{BoolValue: true}})
+		}
+		out = append(out, &common.KeyValue{Key: k, Value: v})
+	}
+	if rng.Chance(weird / 3) {
+		out = append(out, nil)
+	}
+	return out
+}
+
+func (g *c28Gen) idBytes(normal int) []byte {
+	rng := g.rng
+	switch rng.Intn(10) {
+	case 0:
+		return nil
+	case 1:
+		return c28Random(rng, verifkit.Pick(rng, 1, 7, 9, 15, 17, 32, 64, 1000))
+	case 2:
+		return make([]byte, normal)
+	default:
+		b := make([]byte, normal)
+		b[normal-1] = byte(rng.Intn(40))
+		b[0] = 0xab
+		return b
+	}
+}
+
+func (g *c28Gen) resource(weird float64) *resourcepb.Resource {
+	if g.rng.Chance(weird / 4) {
+		return nil
+	}
+	return &resourcepb.Resource{Attributes: g.attrs(weird), DroppedAttributesCount: uint32(g.rng.Intn(3))}
+}
+
+func (g *c28Gen) otlpTraces(weird float64) *collectortrace.ExportTraceServiceRequest {
+	rng := g.rng
+	req := &collectortrace.ExportTraceServiceRequest{}
+	for i := verifkit.Pick(rng, 0, 1, 1, 1, 2); i > 0; i-- {
+		rs := &tracepb.ResourceSpans{Resource: g.resource(weird), SchemaUrl: verifkit.Pick(rng, "", "http://s")}
+		for j := verifkit.Pick(rng, 0, 1, 1, 2); j > 0; j-- {
+			ss := &tracepb.ScopeSpans{}
+			if rng.Bool() {
+				ss.Scope = &common.InstrumentationScope{Name: c28Str(rng), Version: c28Str(rng), Attributes: g.attrs(weird)}
+			}
+			for k := verifkit.Pick(rng, 0, 1, 1, 2, 4); k > 0; k-- {
+				sp := &tracepb.Span{TraceId: g.idBytes(16), SpanId: g.idBytes(8), Name: c28Str(rng),
+					Kind:              tracepb.Span_SpanKind(verifkit.Pick(rng, 0, 1, 2, 5, 6, -1, 1000)),
+					StartTimeUnixNano: verifkit.Pick[uint64](rng, 0, 1700000000000000000, math.MaxUint64, 1<<63),
+					EndTimeUnixNano:   verifkit.Pick[uint64](rng, 0, 1700000000500000000, math.MaxUint64, 1),
+					Attributes:        g.attrs(weird), TraceState: verifkit.Pick(rng, "", "a=b", c28Str(rng)), Flags: uint32(rng.Intn(4))}
+				if rng.Chance(0.6) {
+					sp.ParentSpanId = g.idBytes(8)
+				}
+				if rng.Chance(0.4) {
+					sp.Status = &tracepb.Status{Code: tracepb.Status_StatusCode(verifkit.Pick(rng, 0, 1, 2, 3, -7)), Message: c28Str(rng)}
+				}
+				for e := verifkit.Pick(rng, 0, 0, 1, 3); e > 0; e-- {
+					ev := &tracepb.Span_Event{TimeUnixNano: verifkit.Pick[uint64](rng, 0, 1700000000100000000, math.MaxUint64), Name: verifkit.Pick(rng, "exception", "e", ""), Attributes: g.attrs(weird)}
+					if rng.Chance(weird / 4) {
+						ev = nil
+					}
+					sp.Events = append(sp.Events, ev)
+				}
+				for l := verifkit.Pick(rng, 0, 0, 1, 2); l > 0; l-- {
+					sp.Links = append(sp.Links, &tracepb.Span_Link{TraceId: g.idBytes(16), SpanId: g.idBytes(8), Attributes: g.attrs(weird), TraceState: c28Str(rng)})
+				}
+				if rng.Chance(weird / 5) {
+					sp = nil
+				}
+				ss.Spans = append(ss.Spans, sp)
+			}
+			if rng.Chance(weird / 5) {
+				ss = nil
+			}
+			rs.ScopeSpans = append(rs.ScopeSpans, ss)
+		}
+		if rng.Chance(weird / 5) {
+			rs = nil
+		}
+		req.ResourceSpans = append(req.ResourceSpans, rs)
+	}
+	return req
+}
+
+func (g *c28Gen) otlpLogs(weird float64) *collectorlogs.ExportLogsServiceRequest {
+	rng := g.rng
+	req := &collectorlogs.ExportLogsServiceRequest{}
+	for i := verifkit.Pick(rng, 0, 1, 1, 2); i > 0; i-- {
+		rl := &logspb.ResourceLogs{Resource: g.resource(weird)}
+		for j := verifkit.Pick(rng, 0, 1, 1, 2); j > 0; j-- {
+			sl := &logspb.ScopeLogs{}
+			if rng.Bool() {
+				sl.Scope = &common.InstrumentationScope{Name: c28Str(rng), Attributes: g.attrs(weird)}
+			}
+			for k := verifkit.Pick(rng, 0, 1, 2, 3); k > 0; k-- {
+				lr := &logspb.LogRecord{TimeUnixNano: verifkit.Pick[uint64](rng, 0, 1700000000000000000, math.MaxUint64), ObservedTimeUnixNano: verifkit.Pick[uint64](rng, 0, 5, math.MaxUint64),
+					SeverityNumber: logspb.SeverityNumber(verifkit.Pick(rng, 0, 9, 24, 25, -1)), SeverityText: c28Str(rng), Body: g.anyValue(3), Attributes: g.attrs(weird),
+					TraceId: g.idBytes(16), SpanId: g.idBytes(8), Flags: uint32(rng.Intn(3))}
+				if rng.Chance(weird / 5) {
+					lr = nil
+				}
+				sl.LogRecords = append(sl.LogRecords, lr)
+			}
+			rl.ScopeLogs = append(rl.ScopeLogs, sl)
+		}
+		req.ResourceLogs = append(req.ResourceLogs, rl)
+	}
+	return req
+}
+
+func c28PBVarint(b []byte, v uint64) []byte {
+	for v >= 0x80 {
+		b = append(b, byte(v)|0x80)
+		v >>= 7
+	}
+	return append(b, byte(v))
+}
+
+func c28PBLen(field int, payload []byte) []byte {
+	b := c28PBVarint(nil, uint64(field<<3|2))
+	b = c28PBVarint(b, uint64(len(payload)))
+	return append(b, payload...)
+}
+
+// c28DeepOTLP: an AnyValue nested through array_value (how=0) or kvlist_value (how=1) so
+// that the whole request is about maxBytes long, inside a span attribute (traces) or a
+// log body / attribute (logs).
+func c28DeepOTLP(logs bool, how int, maxBytes int) []byte {
+	cur := c28PBLen(1, []byte("x"))
+	size := len(cur)
+	var headers [][]byte
+	for size < maxBytes-200 {
+		if how == 0 {
+			h1 := c28PBVarint(c28PBVarint(nil, 1<<3|2), uint64(size)) // ArrayValue.values
+			size += len(h1)
+			h2 := c28PBVarint(c28PBVarint(nil, 5<<3|2), uint64(size)) // AnyValue.array_value
+			size += len(h2)
+			headers = append(headers, h1, h2)
+		} else {
+			h0 := c28PBVarint(c28PBVarint(nil, 2<<3|2), uint64(size)) // KeyValue.value
+			size += len(h0)
+			k := []byte{1<<3 | 2, 1, 'k'} // KeyValue.key (written before value)
+			size += len(k)
+			h1 := c28PBVarint(c28PBVarint(nil, 1<<3|2), uint64(size)) // KeyValueList.values
+			size += len(h1)
+			h2 := c28PBVarint(c28PBVarint(nil, 6<<3|2), uint64(size)) // AnyValue.kvlist_value
+			size += len(h2)
+			headers = append(headers, append(k, h0...), h1, h2)
+		}
+	}
+	any := make([]byte, 0, size)
+	for i := len(headers) - 1; i >= 0; i-- {
+		any = append(any, headers[i]...)
+	}
+	any = append(any, cur...)
+	kv := append(c28PBLen(1, []byte("a")), c28PBLen(2, any)...)
+	if logs {
+		rec := append(c28PBLen(5, any), c28PBLen(6, kv)...) // LogRecord.body = 5, attributes = 6
+		if how == 0 {
+			rec = c28PBLen(6, kv)
+		}
+		return c28PBLen(1, c28PBLen(2, c28PBLen(2, rec))) // ResourceLogs.scope_logs=2, ScopeLogs.log_records=2
+	}
+	span := append(c28PBLen(1, bytes.Repeat([]byte{0xab}, 16)), c28PBLen(2, bytes.Repeat([]byte{0xcd}, 8))...)
+	span = append(span, c28PBLen(9, kv)...)
+	return c28PBLen(1, c28PBLen(2, c28PBLen(2, span)))
+}
+
+// otlpPayload: serialized request (protobuf or JSON) + label.
+func (g *c28Gen) otlpPayload(logs bool, asJSON bool, extreme bool, limit int) ([]byte, string) {
+	rng := g.rng
+	if extreme {
+		how := rng.Intn(2)
+		if asJSON {
+			d := limit / g.scale / 40
+			body := `{"resourceSpans":[{"scopeSpans":[{"spans":[{"traceId":"abababababababababababababababab","spanId":"cdcdcdcdcdcdcdcd","attributes":[{"key":"a","value":` +
+				strings.Repeat(`{"arrayValue":{"values":[`, d) + `{"stringValue":"x"}` + strings.Repeat(`]}}`, d) + `}]}]}]}]}`
+			if logs {
+				body = strings.Replace(strings.Replace(strings.Replace(body, "resourceSpans", "resourceLogs", 1), "scopeSpans", "scopeLogs", 1), `"spans"`, `"logRecords"`, 1)
+			}
+			return []byte(body), "json/extreme-depth"
+		}
+		return c28DeepOTLP(logs, how, limit/g.scale), "pb/extreme-depth-" + strconv.Itoa(how)
+	}
+	weird := verifkit.Pick(rng, 0.0, 0.1, 0.3, 0.6)
+	var msg proto.Message
+	if logs {
+		msg = g.otlpLogs(weird)
+	} else {
+		msg = g.otlpTraces(weird)
+	}
+	var body []byte
+	var err error
+	fam := "pb"
+	if asJSON {
+		fam = "json"
+		body, err = protojson.Marshal(msg)
+	} else {
+		body, err = proto.Marshal(msg)
+	}
+	if err != nil {
+		// invalid UTF-8 in a string field etc.: protobuf refuses to marshal; fall back to a hand-made one
+		body, fam = c28DeepOTLP(logs, rng.Intn(2), 600), fam+"-handmade"
+	}
+	switch k := rng.Intn(20); {
+	case k < 8:
+		return body, fam + "/tree"
+	case k < 16:
+		b, l := c28Mutate(rng, body, false)
+		return b, fam + "/mut" + l
+	case k == 16:
+		return c28Random(rng, rng.Range(0, 200)), fam + "/random"
+	case k == 17:
+		d := verifkit.Pick(rng, 99, 101, 1000, 9999, 10001)
+		return c28DeepOTLP(logs, rng.Intn(2), d*8), fam + "/nest"
+	case k == 18:
+		// length prefixes pointing past the end / negative / zero field numbers / groups
+		return verifkit.Pick(rng,
+			[]byte{0x0a, 0xff, 0xff, 0xff, 0xff, 0x0f}, []byte{0x0a, 0xff, 0xff, 0xff, 0xff, 0xff, 0xff, 0xff, 0xff, 0xff, 0x01}, []byte{0x0a, 0x80},
+			[]byte{0x00, 0x00}, []byte{0x0b, 0x0b, 0x0b, 0x0c}, []byte{0x0c}, []byte{0x0d, 1, 2}, []byte{0x09, 1, 2, 3}, []byte{0x0f}, []byte{0x0e},
+			[]byte{0x0a, 0x04, 0x12, 0x02, 0x12, 0x00}, []byte{0x0a, 0x02, 0x0a, 0x7f}, []byte{0xfa, 0xff, 0xff, 0xff, 0xff, 0xff, 0xff, 0xff, 0xff, 0x7f, 0x00},
+			c28PBLen(1, c28PBLen(2, c28PBLen(2, []byte{0x0a, 0x10}))), c28PBLen(1, c28PBLen(2, c28PBLen(2, []byte{0x39, 1, 2, 3}))), c28PBLen(1, c28PBLen(2, c28PBLen(2, []byte{0x4a, 0x03, 0x12, 0x01, 0x21})))), fam + "/wire-literal"
+	default:
+		if asJSON {
+			b, _ := proto.Marshal(msg)
+			return b, "json/wrong-ct"
+		}
+		b, _ := protojson.Marshal(msg)
+		return b, "pb/wrong-ct"
+	}
+}
+
+func (g *c28Gen) otlpHTTP(logs, extreme bool) c28Req {
+	rng := g.rng
+	r := c28Req{Listener: verifkit.Pick(rng, "incoming", "incoming", "incoming", "peer")}
+	asJSON := rng.Chance(0.35)
+	if g.force != 0 {
+		asJSON = g.force == 2
+	}
+	body, class := g.otlpPayload(logs, asJSON, extreme, 20*1024*1024)
+	ct := verifkit.Pick(rng, "application/protobuf", "application/x-protobuf")
+	if asJSON {
+		ct = "application/json"
+	}
+	if !extreme && rng.Chance(0.08) {
+		ct = verifkit.Pick(rng, "", "text/plain", "application/msgpack", "application/json; charset=utf-8", "application/grpc", "APPLICATION/PROTOBUF")
+	}
+	body, ce, encLabel := g.encode(body)
+	var hdrs []c28Hdr
+	if ct != "" {
+		hdrs = append(hdrs, c28Hdr{"Content-Type", ct})
+	}
+	if ce != "" {
+		hdrs = append(hdrs, c28Hdr{"Content-Encoding", ce})
+	}
+	if k, ok := g.apiKey(); ok {
+		hdrs = append(hdrs, c28Hdr{"x-honeycomb-team", k})
+	}
+	if rng.Chance(0.6) {
+		hdrs = append(hdrs, c28Hdr{"x-honeycomb-dataset", verifkit.Pick(rng, c28Datasets[rng.Intn(len(c28Datasets))], "", strings.Repeat("d", 3000))})
+	}
+	path := "/v1/traces"
+	if logs {
+		path = "/v1/logs"
+	}
+	if !g.benign {
+		path += verifkit.Pick(rng, "", "", "", "/", "//", "/x", "?a=b")
+	}
+	r.Class = path + "/" + r.Listener + "/" + class + "/" + encLabel
+	g.finishHTTP(&r, verifkit.Pick(rng, "POST", "POST", "POST", "POST", "POST", "POST", "GET", "PATCH"), path, hdrs, body)
+	return r
+}
+
+func (g *c28Gen) otlpGRPC(logs, extreme bool) c28Req {
+	rng := g.rng
+	// gRPC default MaxRecvMsgSize is 15 MB
+	body, class := g.otlpPayload(logs, false, extreme, 15_000_000)
+	r := c28Req{Proto: "grpc", Method: E3GRPCTraceExport, Payload: body, Gzip: rng.Chance(0.2), MD: map[string]string{}}
+	if logs {
+		r.Method = E3GRPCLogsExport
+	}
+	if !extreme && rng.Chance(0.04) {
+		r.Method = verifkit.Pick(rng, "/opentelemetry.proto.collector.trace.v1.TraceService/Nope", "/grpc.health.v1.Health/Check", "/x/y", "/opentelemetry.proto.collector.metrics.v1.MetricsService/Export")
+	}
+	if k, ok := g.apiKey(); ok {
+		if strings.IndexFunc(k, func(c rune) bool { return c < 0x20 || c > 0x7e }) >= 0 {
+			k = "nonprintable-key-replaced"
+		}
+		r.MD[verifkit.Pick(rng, "x-honeycomb-team", "x-honeycomb-team", "x-hny-team")] = k
+	}
+	if rng.Chance(0.6) {
+		r.MD["x-honeycomb-dataset"] = verifkit.Pick(rng, "dyn", "ema", "tot", "win", "emat", "det", "a b", "", strings.Repeat("d", 3000))
+	}
+	if rng.Chance(0.1) {
+		r.MD["user-agent"] = c28Clip(strings.Map(func(c rune) rune {
+			if c < 0x20 || c > 0x7e {
+				return '?'
+			}
+			return c
+		}, c28Str(rng)), 200)
+	}
+	r.Class = "grpc" + r.Method[strings.LastIndex(r.Method[:strings.LastIndex(r.Method, "/")], ".")+1:] + "/" + class
+	if r.Gzip {
+		r.Class += "/gzip"
+	}
+	r.Desc = fmt.Sprintf("gRPC %s md=%v class=%s payload=%dB", r.Method, c28ClipMD(r.MD), r.Class, len(body))
+	return r
+}
+
+func c28ClipMD(md map[string]string) map[string]string {
+	out := map[string]string{}
+	for k, v := range md {
+		out[k] = c28Clip(v, 80)
+	}
+	return out
+}
+
+// ---- everything else: health, version, panic, query, proxy ----
+
+func (g *c28Gen) misc() c28Req {
+	rng := g.rng
+	r := c28Req{Listener: verifkit.Pick(rng, "incoming", "peer")}
+	method, body := "GET", []byte(nil)
+	var hdrs []c28Hdr
+	var path, class string
+	switch rng.Intn(10) {
+	case 0, 1:
+		path = verifkit.Pick(rng, "/alive", "/ready", "/version", "/panic", "/alive/", "/ALIVE", "/version?x=%zz")
+		method = verifkit.Pick(rng, "GET", "GET", "POST", "HEAD", "OPTIONS", "DELETE")
+		class = "health" + path
+	case 2, 3, 4:
+		id := verifkit.Pick(rng, "trace-1", "", "%", "%zz", "a%2Fb", "<script>", "%22%7D", strings.Repeat("t", 5000), "é", "a b")
+		path = verifkit.Pick(rng, "/query/trace/"+id, "/query/rules/"+verifkit.Pick(rng, "json", "yaml", "toml", "xml", "JSON", "")+"/"+verifkit.Pick(rng, "dyn", "__default__", "nope", id),
+			"/query/allrules/"+verifkit.Pick(rng, "json", "yaml", "toml", "bogus", id), "/query/configmetadata", "/query/", "/query/nope")
+		switch rng.Intn(4) {
+		case 0:
+		case 1:
+			hdrs = append(hdrs, c28Hdr{"X-Honeycomb-Refinery-Query", "wrong%stoken"})
+		default:
+			hdrs = append(hdrs, c28Hdr{"X-Honeycomb-Refinery-Query", c28QueryToken})
+		}
+		method = verifkit.Pick(rng, "GET", "GET", "GET", "POST")
+		class = "query/" + strings.SplitN(strings.TrimPrefix(path, "/query/"), "/", 2)[0]
+	default:
+		path = verifkit.Pick(rng, "/", "/1/markers/ds", "/1/auth", "/1/events", "/1/events/", "/1/batch", "/1/batch/", "/1/events/a/b", "/2/events/ds", "/v1/metrics", "/v1/", "/v2/traces",
+			"//1//events//ds", "/1/../1/events/ds", "/%2e%2e/x", "/x?y="+strings.Repeat("q", 3000), "*", "/1/kinesis_events/ds", "http://evil.invalid/1/markers/x")
+		method = verifkit.Pick(rng, "GET", "POST", "PUT", "DELETE", "PATCH", "HEAD", "OPTIONS", "CONNECT", "TRACE", "BREW")
+		if method != "GET" && method != "HEAD" {
+			body = verifkit.Pick(rng, nil, []byte(`{"message":"deploy"}`), c28Random(rng, 50), bytes.Repeat([]byte("p"), 200_000))
+		}
+		if k, ok := g.apiKey(); ok {
+			hdrs = append(hdrs, c28Hdr{"X-Honeycomb-Team", k})
+		}
+		hdrs = append(hdrs, c28Hdr{"Content-Type", "application/json"})
+		class = "proxy/" + method
+	}
+	r.Class = class + "/" + r.Listener
+	g.finishHTTP(&r, method, path, hdrs, body)
+	return r
+}
+
+// next: one request of the seeded mix.
+func (g *c28Gen) next(extremeSlot int) c28Req {
+	rng := g.rng
+	if extremeSlot >= 0 {
+		g.force, g.benign = 1+extremeSlot%2, true
+		defer func() { g.force, g.benign = 0, false }()
+		// slots 0..5 are cheap on every tree (quick uses only these); 6..9 nest OTLP protobuf as
+		// deep as the size limits admit, which costs the husky translator tens of seconds each
+		switch extremeSlot % 10 {
+		case 0, 1:
+			return g.libhoney(false, true)
+		case 2, 3:
+			return g.libhoney(true, true)
+		case 4:
+			g.force = 2
+			return g.otlpHTTP(false, true)
+		case 5:
+			g.force = 2
+			return g.otlpHTTP(true, true)
+		case 6:
+			g.force = 1
+			return g.otlpHTTP(false, true)
+		case 7:
+			g.force = 1
+			return g.otlpHTTP(true, true)
+		case 8:
+			g.force = 1
+			return g.otlpGRPC(false, true)
+		default:
+			g.force = 1
+			return g.otlpGRPC(true, true)
+		}
+	}
+	switch k := rng.Intn(100); {
+	case k < 22:
+		return g.libhoney(false, false)
+	case k < 46:
+		return g.libhoney(true, false)
+	case k < 58:
+		return g.otlpHTTP(false, false)
+	case k < 66:
+		return g.otlpHTTP(true, false)
+	case k < 80:
+		return g.otlpGRPC(false, false)
+	case k < 90:
+		return g.otlpGRPC(true, false)
+	default:
+		return g.misc()
+	}
+}
+
+// -------------------------------------------------------------------------------------
+// Parent test
+// -------------------------------------------------------------------------------------
+
+const c28ChildTest = "TestVerif_C28RequestsChild"
+
+func c28OutcomeClass(note string) string {
+	switch {
+	case strings.HasPrefix(note, "HANG"):
+		return "hang"
+	case strings.HasPrefix(note, "h") && len(note) >= 2:
+		return "http" + note[1:2] + "xx"
+	case note == "g0":
+		return "grpc-ok"
+	case strings.HasPrefix(note, "g"):
+		return "grpc-" + note[1:]
+	}
+	return note
+}
+
+func c28Witness(r *c28Req, extra map[string]any) map[string]any {
+	w := map[string]any{"index": r.Index, "class": r.Class, "desc": r.Desc, "proto": r.Proto}
+	if r.Proto == "grpc" {
+		w["method"], w["metadata"], w["grpc_gzip"] = r.Method, c28ClipMD(r.MD), r.Gzip
+		w["payload_len"] = len(r.Payload)
+		w["payload_head_base64"] = base64.StdEncoding.EncodeToString(r.Payload[:min(len(r.Payload), 600)])
+	} else {
+		w["listener"], w["half_close"] = r.Listener, r.HalfClose
+		w["raw_len"] = len(r.Raw)
+		head := r.Raw[:min(len(r.Raw), 1500)]
+		w["raw_head"] = strconv.QuoteToASCII(string(head))
+	}
+	for k, v := range extra {
+		w[k] = v
+	}
+	return w
+}
+
+type c28BatchResult struct {
+	outcomes []verifkit.ChildOutcome // one per child (re)start, in order
+	starts   []int
+}
+
+func TestVerif_C28Requests(t *testing.T) {
+	if _, _, child := verifkit.InChild(); child {
+		t.Skip("child mode")
+	}
+	run := verifkit.Start(t, "C28", "requests")
+	defer run.Finish()
+	run.Rule("seeded structure-aware hostile requests (no coverage guidance): every HTTP route (/1/events, /1/batch, /v1/traces, /v1/logs, /alive, /ready, /version, /panic, /query/*, proxied paths) x content types (JSON, msgpack, protobuf, OTLP JSON, wrong pairings) x encodings (none, gzip, zstd, label only, odd label, corrupt, double) with bodies that are valid-but-weird value trees (wrong-typed time/samplerate/data/trace id/meta fields, NaN, ext types, duplicate keys, huge maps), byte-mutated, truncated, random, huge declared lengths, moderately and maximally nested; hostile headers (API keys, sample rate, event time, dataset escapes, content-length mismatches, chunked, huge headers); gRPC trace/logs Export with raw payloads through a raw codec; both listeners. Every request is sent to a real node (validated config, real routers/collector/samplers/transmissions) in a child process; non-trivial = the node answered the request; distinct = distinct (route, listener, content, body class, encoding, outcome class)")
+	run.Assume("the child process limits its address space to 16 GiB (a request of a few MB that needs more is a crash: runtime out of memory)")
+	run.Assume("quick tier: goroutine stacks are limited to 1/16 of the runtime default (62.5 MB instead of 1 GB) and maximal-nesting inputs are 1/16 of what the body size limits (5 MB libhoney, 20 MiB OTLP/HTTP, 15 MB gRPC) admit, assuming stack use linear in nesting depth; thorough tier: runtime default and full-size inputs")
+	run.Assume("a crash is attributed to the request named by the write-ahead log; when it does not reproduce with per-request draining the witness is the preceding window of requests")
+
+	scale, watchdog := 16, 60*time.Second
+	n, perBatch, extremes, lanes := 6000, 1000, 6, 3
+	if run.Thorough() {
+		scale, watchdog = 1, 300*time.Second
+		n, perBatch, extremes, lanes = 300000, 5000, 20, 4
+	}
+	dir := run.OutDir()
+
+	// ---- generate (PRNG only) ----
+	extremeAt := map[int]int{}
+	er := run.Rand("extreme-slots")
+	for s := 0; s < extremes; s++ {
+		for {
+			i := er.Intn(n)
+			if _, dup := extremeAt[i]; !dup {
+				extremeAt[i] = s
+				break
+			}
+		}
+	}
+	reqs := make([]c28Req, 0, n)
+	run.Cases("requests", n, func(i int, rng *verifkit.Rand) {
+		g := &c28Gen{rng: rng, scale: scale}
+		slot := -1
+		if s, ok := extremeAt[i]; ok {
+			slot = s
+		}
+		r := g.next(slot)
+		r.Index = i
+		reqs = append(reqs, r)
+	})
+	if len(reqs) == 0 {
+		return
+	}
+	// VERIF_CASE replays one request alone: one batch of one
+	type batchDef struct {
+		lo, hi int
+		file   string
+		b      c28Batch
+	}
+	var batches []*batchDef
+	prof := run.Rand("profiles")
+	for lo := 0; lo < len(reqs); lo += perBatch {
+		hi := min(lo+perBatch, len(reqs))
+		bd := &batchDef{lo: lo, hi: hi, file: filepath.Join(dir, fmt.Sprintf("c28req-batch-%d.json", lo))}
+		pidx := reqs[lo].Index / perBatch
+		bd.b = c28Batch{Scale: scale, WatchdogMs: int(watchdog / time.Millisecond), Profile: c28GenProfile(prof.Fork(strconv.Itoa(pidx)), pidx), Requests: reqs[lo:hi]}
+		batches = append(batches, bd)
+	}
+
+	// ---- execute batches in child processes (lanes in parallel; results handled in order) ----
+	childTimeout := 20*time.Minute + 3*watchdog
+	results := make([]*c28BatchResult, len(batches))
+	var wg sync.WaitGroup
+	sem := make(chan struct{}, lanes)
+	for bi, bd := range batches {
+		wg.Add(1)
+		go func(bi int, bd *batchDef) {
+			defer wg.Done()
+			sem <- struct{}{}
+			defer func() { <-sem }()
+			js, err := json.Marshal(bd.b)
+			if err == nil {
+				err = os.WriteFile(bd.file, js, 0o644)
+			}
+			res := &c28BatchResult{}
+			results[bi] = res
+			if err != nil {
+				res.outcomes = append(res.outcomes, verifkit.ChildOutcome{CrashedAt: -2, Message: "HARNESS: " + err.Error()})
+				return
+			}
+			nreq := bd.hi - bd.lo
+			start := 0
+			t0 := time.Now()
+			defer func() { t.Logf("batch %d: %d child runs, %.1fs", bd.lo, len(res.outcomes), time.Since(t0).Seconds()) }()
+			for restarts := 0; start <= nreq && restarts <= 40; restarts++ {
+				out := verifkit.RunChild(dir, c28ChildTest, bd.file, start, childTimeout)
+				res.outcomes = append(res.outcomes, out)
+				res.starts = append(res.starts, start)
+				if out.CrashedAt < 0 {
+					break
+				}
+				start = out.CrashedAt + 1
+			}
+		}(bi, bd)
+	}
+	wg.Wait()
+
+	// ---- evaluate ----
+	for bi, bd := range batches {
+		res := results[bi]
+		nreq := bd.hi - bd.lo
+		for oi, out := range res.outcomes {
+			for i, note := range out.Done {
+				if i >= nreq {
+					if strings.Contains(note, "idle=false") {
+						run.Count("drain_not_idle", 1)
+					}
+					var added, decided, sunk int64
+					if k := strings.Index(note, "added="); k >= 0 {
+						fmt.Sscanf(note[k:], "added=%d decided=%d sink_events=%d", &added, &decided, &sunk)
+					}
+					run.Count("spans_into_real_collector", added)
+					run.Count("trace_decisions_by_real_samplers", decided)
+					run.Count("events_transmitted_to_sink", sunk)
+					continue
+				}
+				r := &bd.b.Requests[i]
+				oc := c28OutcomeClass(note)
+				run.Count("outcome_"+oc, 1)
+				if oc == "closed" {
+					continue
+				}
+				if oc == "hang" {
+					hung := 0
+					for k := 0; k < 2; k++ {
+						o2 := verifkit.RunChild(dir, c28ChildTest, bd.file, i, 3*watchdog+time.Minute, "VERIF_CHILD_ONLY=1")
+						if strings.HasPrefix(o2.Done[i], "HANG") || (o2.TimedOut && o2.CrashedAt == i) {
+							hung++
+						}
+					}
+					if hung == 2 {
+						run.Violation("C28/requests/hang/"+strings.SplitN(r.Class, "/", 3)[0]+"/"+strings.SplitN(r.Class, "/", 3)[1], fmt.Sprintf("request not answered within %s, reproduced alone 2/2", watchdog), c28Witness(r, map[string]any{"profile": bd.b.Profile}))
+					} else {
+						run.Count("hangs_not_reproduced", 1)
+						t.Logf("hang not reproduced alone: %s", r.Desc)
+					}
+					continue
+				}
+				run.Nontrivial(r.Class + " -> " + oc)
+				if run.Counter("samples_taken") < 3 && i%97 == 0 {
+					run.Count("samples_taken", 1)
+					run.Sample(c28Witness(r, map[string]any{"outcome": note}))
+				}
+			}
+			switch {
+			case out.CrashedAt == -1:
+			case out.CrashedAt == -2:
+				run.Inconclusive(fmt.Sprintf("child of batch %d died outside any request: %s %s", bd.lo, out.Message, c28Tail28(out.Output, 30)))
+			case out.TimedOut:
+				run.Count("child_timeouts", 1)
+				run.Inconclusive(fmt.Sprintf("child of batch %d hit its go test timeout at request %d", bd.lo, out.CrashedAt))
+			default:
+				run.Count("child_crashes", 1)
+				j := out.CrashedAt
+				sig := "C28/requests/" + out.Site + "/" + out.Message
+				// attribution: replay the preceding window with per-request draining
+				lo := max(res.starts[oi], j-32)
+				witnessIdx, reproduced := j, false
+				if j >= nreq {
+					j = nreq - 1 // died while draining
+					witnessIdx = j
+				}
+				// cheap first: the request named by the WAL alone (handler-side crashes reproduce at once)
+				o2 := verifkit.RunChild(dir, c28ChildTest, bd.file, j, childTimeout, "VERIF_CHILD_ONLY=1")
+				if o2.CrashedAt >= 0 && o2.Site == out.Site {
+					reproduced = true
+				} else {
+					o2 = verifkit.RunChild(dir, c28ChildTest, bd.file, lo, childTimeout, "VERIF_CHILD_DRAIN_EACH=1", "VERIF_CHILD_UNTIL="+strconv.Itoa(j))
+					if o2.CrashedAt >= 0 && o2.CrashedAt < nreq && o2.Site == out.Site {
+						witnessIdx, reproduced = o2.CrashedAt, true
+					}
+				}
+				r := &bd.b.Requests[witnessIdx]
+				extra := map[string]any{"profile": bd.b.Profile, "reproduced_with_per_request_drain": reproduced, "wal_index_at_death": out.CrashedAt, "crash_output": c28Tail28(out.Output, 70)}
+				if !reproduced {
+					var window []string
+					for k := lo; k <= j; k++ {
+						window = append(window, bd.b.Requests[k].Desc)
+					}
+					extra["window"] = window
+				}
+				run.Violation(sig, fmt.Sprintf("request crashed the node in %s: %s", out.Site, out.Message), c28Witness(r, extra))
+			}
+		}
+		os.Remove(bd.file)
+	}
+}
+
+func c28Tail28(s string, n int) string {
+	lines := strings.Split(s, "\n")
+	for i, l := range lines {
+		if strings.HasPrefix(l, "panic: ") || strings.HasPrefix(l, "fatal error: ") || strings.HasPrefix(l, "runtime: goroutine stack exceeds") {
+			lines = lines[i:]
+			break
+		}
+	}
+	if len(lines) > n {
+		lines = lines[:n]
+	}
+	return strings.Join(lines, "\n")
 }
